@@ -30,6 +30,9 @@ pub struct Caps<R: Region> {
     pub cmp_borrowed: Option<fn(&R, <R as Region>::Index, &<R as Region>::Owned) -> Value>,
     pub has_heap: bool,
     pub has_reserve_regions: bool,
+    /// the owned value is a sequence (slice / columns / owned): clone_onto is exercised on every read
+    /// against an empty, a shorter and a longer target built from the value itself
+    pub seq_owned: bool,
 }
 
 impl<R: Region> Default for Caps<R> {
@@ -48,6 +51,7 @@ impl<R: Region> Default for Caps<R> {
             cmp_borrowed: None,
             has_heap: true,
             has_reserve_regions: true,
+            seq_owned: false,
         }
     }
 }
@@ -143,6 +147,25 @@ where
         }
         if direct != owned {
             return inconsistent("into_owned(x) differs from x", json!([direct, owned]));
+        }
+        if self.caps.seq_owned {
+            if let Some(arr) = direct.as_array() {
+                // IntoOwned::clone_onto must leave the target equal to the item whatever it held before
+                let mut longer = arr.clone();
+                longer.extend(arr.iter().cloned());
+                if let Some(first) = arr.first() {
+                    longer.push(first.clone());
+                }
+                let shorter: Vec<Value> = arr.iter().take(arr.len() / 2).cloned().collect();
+                for target in [Value::Array(vec![]), Value::Array(shorter), Value::Array(longer)] {
+                    let mut t = R::Owned::from_json(&target);
+                    self.region.index(idx).clone_onto(&mut t);
+                    let got = t.to_json();
+                    if got != direct {
+                        return inconsistent("clone_onto(x, t) leaves t different from x", json!({"x": direct, "t_before": target, "t_after": got}));
+                    }
+                }
+            }
         }
         direct
     }
